@@ -703,6 +703,84 @@ def _inline_list_temps(fn: ast.FunctionDef):
                 setattr(node, fld, do(seq))
 
 
+def _unroll_table_loops(fn: ast.FunctionDef):
+    """`for a, b, c in TABLE: BODY` over a small constant table of tuples (bound once, elements constants / names) reads as
+    BODY once per row with the row's values in place of a, b, c; locals of BODY that are not read after the loop get a
+    per-row name.  A dict filled with constant keys and used once as `f(**d)` reads as keyword arguments."""
+    stores: Dict[str, int] = {}
+    for n in ast.walk(fn):
+        if isinstance(n, ast.Name) and isinstance(n.ctx, ast.Store):
+            stores[n.id] = stores.get(n.id, 0) + 1
+    tables: Dict[str, ast.AST] = {}
+    for n in ast.walk(fn):
+        if isinstance(n, ast.Assign) and len(n.targets) == 1 and isinstance(n.targets[0], ast.Name) and stores.get(n.targets[0].id) == 1 and isinstance(n.value, (ast.Tuple, ast.List)) and 1 <= len(n.value.elts) <= 6:
+            rows = n.value.elts
+            if all(isinstance(r, (ast.Tuple, ast.List)) and len(r.elts) == len(rows[0].elts) and all(isinstance(e, (ast.Constant, ast.Name)) for e in r.elts) for r in rows if isinstance(rows[0], (ast.Tuple, ast.List))) and isinstance(rows[0], (ast.Tuple, ast.List)):
+                tables[n.targets[0].id] = n.value
+    counter = [0]
+
+    def do(seq: List[ast.stmt]) -> List[ast.stmt]:
+        out: List[ast.stmt] = []
+        for i, st in enumerate(seq):
+            for fld in ("body", "orelse", "finalbody"):
+                sub = getattr(st, fld, None)
+                if isinstance(sub, list) and sub and isinstance(sub[0], ast.stmt) and not isinstance(st, ast.FunctionDef):
+                    setattr(st, fld, do(sub))
+            if isinstance(st, ast.For) and not st.orelse and isinstance(st.iter, ast.Name) and st.iter.id in tables and isinstance(st.target, (ast.Tuple, ast.List)) and all(isinstance(t, ast.Name) for t in st.target.elts) and len(st.target.elts) == len(tables[st.iter.id].elts[0].elts) and not any(isinstance(x, (ast.Break, ast.Continue, ast.Return, ast.Yield, ast.FunctionDef, ast.Lambda)) for b in st.body for x in ast.walk(b)):
+                tnames = [t.id for t in st.target.elts]
+                body_stores = {x.id for b in st.body for x in ast.walk(b) if isinstance(x, ast.Name) and isinstance(x.ctx, ast.Store)}
+                read_later = {x.id for later in seq[i + 1 :] for x in ast.walk(later) if isinstance(x, ast.Name) and isinstance(x.ctx, ast.Load)}
+                if set(tnames) & (body_stores | read_later):
+                    out.append(st)
+                    continue
+                private = body_stores - read_later
+                for k, row in enumerate(tables[st.iter.id].elts):
+                    counter[0] += 1
+                    m: Dict[str, ast.AST] = {t: e for t, e in zip(tnames, row.elts)}
+                    for p_ in private:
+                        m[p_] = ast.Name(id=f"{p_}__row{counter[0]}", ctx=ast.Load())
+                    for b in copy.deepcopy(st.body):
+                        b2 = _Subst(m).visit(b)
+                        for x in ast.walk(b2):
+                            if isinstance(x, ast.Name) and isinstance(x.ctx, ast.Store) and x.id in private:
+                                x.id = f"{x.id}__row{counter[0]}"
+                        out.append(b2)
+                continue
+            out.append(st)
+        return out
+
+    fn.body = do(fn.body)
+
+    class _GetAttr(ast.NodeTransformer):
+        """`getattr(x, "name")` with a constant identifier is `x.name`."""
+
+        def visit_Call(self, c):
+            self.generic_visit(c)
+            if isinstance(c.func, ast.Name) and c.func.id == "getattr" and len(c.args) == 2 and not c.keywords and isinstance(c.args[1], ast.Constant) and isinstance(c.args[1].value, str) and c.args[1].value.isidentifier():
+                return ast.copy_location(ast.Attribute(value=c.args[0], attr=c.args[1].value, ctx=ast.Load()), c)
+            return c
+
+    if counter[0]:
+        fn.body = [_GetAttr().visit(b) for b in fn.body]
+    ast.fix_missing_locations(fn)
+    # d = {} ; d["k"] = e ... ; f(**d)
+    for dname in [n.target.id if isinstance(n, ast.AnnAssign) else n.targets[0].id for n in fn.body if (isinstance(n, ast.AnnAssign) and isinstance(n.target, ast.Name) and isinstance(n.value, ast.Dict) and not n.value.keys) or (isinstance(n, ast.Assign) and len(n.targets) == 1 and isinstance(n.targets[0], ast.Name) and isinstance(n.value, ast.Dict) and not n.value.keys)]:
+        uses = [x for x in ast.walk(fn) if isinstance(x, ast.Name) and x.id == dname]
+        key_stores = [st for st in ast.walk(fn) if isinstance(st, ast.Assign) and len(st.targets) == 1 and isinstance(st.targets[0], ast.Subscript) and isinstance(st.targets[0].value, ast.Name) and st.targets[0].value.id == dname and isinstance(st.targets[0].slice, ast.Constant) and isinstance(st.targets[0].slice.value, str)]
+        splats = [(c, k) for c in ast.walk(fn) if isinstance(c, ast.Call) for k in c.keywords if k.arg is None and isinstance(k.value, ast.Name) and k.value.id == dname]
+        keys = [st.targets[0].slice.value for st in key_stores]
+        if len(splats) != 1 or not key_stores or len(set(keys)) != len(keys) or len(uses) != 1 + len(key_stores) + 1:
+            continue
+        # every store is a top-level statement of fn (executed once, before the call)
+        if not all(st in fn.body for st in key_stores):
+            continue
+        for st in key_stores:
+            st.targets = [ast.copy_location(ast.Name(id=f"{dname}__{st.targets[0].slice.value}", ctx=ast.Store()), st.targets[0])]
+        call, kw = splats[0]
+        call.keywords = [k for k in call.keywords if k is not kw] + [ast.keyword(arg=k_, value=ast.Name(id=f"{dname}__{k_}", ctx=ast.Load())) for k_ in sorted(keys)]
+        ast.fix_missing_locations(fn)
+
+
 def _fold_list_builders(fn: ast.FunctionDef):
     """A list built in steps reads as the display it ends up being:
         xs = [f(c) for c in CONSTS]      (CONSTS a tuple / list of constants bound once in fn)   -> a display
@@ -1056,6 +1134,7 @@ def normalise_module(tree: ast.Module) -> ast.Module:
         return isinstance(e, ast.Name)
 
     for fn in [f for f in t.body if isinstance(f, ast.FunctionDef) and f.name in ENTRY_STRUCTURED | {"start"}]:
+        _unroll_table_loops(fn)
         binds: Dict[str, List[ast.Assign]] = {}
         for n in ast.walk(fn):
             if isinstance(n, ast.Assign) and len(n.targets) == 1 and isinstance(n.targets[0], ast.Name):
